@@ -327,14 +327,15 @@ PROPS = {
         required_theorems=['one_ledger', 'one_ledger_history', 'step_keeps_cache_empty', 'stale_cache_breaks_one_ledger',
                            'sender_debit_exact', 'feepool_credit_exact', 'gas_used_within_limit', 'recipient_credit_exact',
                            'created_contract_credit_exact', 'bystander_untouched', 'nonce_plus_one', 'precheck_failure_noop',
-                           'checktx_changes_nothing', 'olvm_conserves_value', 'olvm_conserves_value_balanced_effs',
-                           'olvm_conserves_value_no_inner_moves', 'selfdestruct_conserves_value',
+                           'checktx_changes_nothing', 'olvm_value_accounting', 'olvm_conserves_value', 'olvm_total_never_grows',
+                           'nothing_burnt_without_selfdestruct', 'olvm_conserves_value_balanced_effs',
+                           'olvm_conserves_value_no_inner_moves', 'selfdestruct_conserves_value', 'pay_the_dead_burns_exactly_that',
                            'nonce_above_state_executes_and_can_be_reused'],
         run=run_c17, replay=replay_olh('olvm'), level='proof',
-        assumptions=['the run of the EVM interpreter (go-ethereum v1.10.8, trusted) is a parameter of the model: gas left, refund counter, error flag, returned-code flag and the ordered balance-changing calls it made on the StateDB interface (SubBalance / AddBalance / Suicide) that survived its own reverts, plus the addresses whose balance entries its reverts undid; in the correspondence these come from a reference run of the same interpreter on go-ethereum\'s own state (core/state over a memory db), not from the implementation',
-                     'signature recovery (EIP-155), chain-id comparison, JSON / RLP sizes and strconv.ParseUint of the memo are decoded facts of a transaction (Tx.sigOk, chainNil, chainOk, senderOk, size, memo); keccak is not modelled: the address of a created contract is an input',
-                     'the theorems about an executed transaction are stated for an empty EVM object cache (an invariant of every history: step_keeps_cache_empty) and - for the exact sender / recipient / bystander equalities - accounts whose balance the contract code itself does not move; value conservation (olvm_conserves_value) assumes only the interpreter\'s own contract: the balance calls it makes on the state it is handed net to zero (an inner transfer credits what it debits, SELFDESTRUCT pays the beneficiary what Suicide then clears)'],
-        model_limits='contract storage, code bytes and logs are not modelled (C16); precompile recipients, contracts that CREATE and payloads that fail to unmarshal are neither generated nor modelled; branches of the model that the application cannot reach through ABCI in this tree because Validate runs first (TransitionDb nonce / EOA / funds / intrinsic-gas errors, ContractFeeHandling gas overflow, EVM.Call / create insufficient balance, address collision, a panicking SubBalance) are covered by the theorems but not by the correspondence; in the finite-block-gas family a transaction whose gas limit is within 3000 of what the block has left is not compared (the harness cannot observe the pool at the instant of buyGas) and a history ends before a transaction that could use up the block gas (that ends in logger.Fatal at EndBlock, C18)'),
+        assumptions=['the run of the EVM interpreter (go-ethereum v1.10.8, trusted) is a parameter of the model: gas left, refund counter, error flag, returned-code flag and the ordered balance-changing calls it made on the StateDB interface (SubBalance / AddBalance / Suicide) that survived its own reverts; in the correspondence these come from a reference run of the same interpreter on go-ethereum\'s own state (core/state over a memory db), not from the implementation',
+                     'signature recovery (EIP-155), chain-id comparison, the envelope key\'s address, canonical spelling of payload and memo, JSON / RLP sizes and strconv.ParseUint of the memo are decoded facts of a transaction (Tx.sigOk, chainNil, chainOk, senderOk, signerKeyOk, payloadCanon, typeOk, memoCanon, size, memo); keccak is not modelled: the address of a created contract is an input',
+                     'the theorems about an executed transaction are stated for an empty EVM object cache (an invariant of every history: step_keeps_cache_empty) and - for the exact sender / recipient / bystander equalities - accounts whose balance the contract code itself does not move; the value accounting (total\' = total - burnt, burnt = what the objects Finalise deletes still hold) assumes only the interpreter\'s own contract: the balance calls it makes on the state it is handed net to zero (an inner transfer credits what it debits, SELFDESTRUCT pays the beneficiary what Suicide then clears); burnt >= 0 (the total never grows) additionally assumes that the interpreter credits non-negative amounts and that the sender, an account without code, does not selfdestruct; burnt = 0 is proved for every run without a surviving Suicide call'],
+        model_limits='contract storage, code bytes and logs are not modelled (C16; in particular a creation whose runtime code is refused by the store - code equal to the deletion marker - fails in Finalise and is neither generated nor modelled); precompile recipients, contracts that CREATE and payloads that fail to unmarshal are neither generated nor modelled; branches of the model that the application cannot reach through ABCI in this tree because Validate runs first (TransitionDb nonce / EOA / funds / intrinsic-gas errors, ContractFeeHandling gas overflow, EVM.Call / create insufficient balance, address collision, a panicking SubBalance) are covered by the theorems but not by the correspondence; in the finite-block-gas family a transaction whose gas limit is within 3000 of what the block has left is not compared (the harness cannot observe the pool at the instant of buyGas) and a history ends before a transaction that could use up the block gas (that ends in logger.Fatal at EndBlock, C18)'),
     'C04': dict(
         lean_modules=['OLP.Props.C04', 'OLP.Props.C04Facts'], namespaces=['OLP.Props.C04'],
         required_theorems=['validateBasic_iff', 'validateBasic_never_panics', 'signature_count_mismatch_rejected', 'substituted_signer_rejected',
